@@ -249,6 +249,8 @@ def run(tier, only=None):
              runner.Cond(HF, "h_neighbors", 3 * Tm, name="h_neighbors[3x1]", env={"VERIF_BH": "3", "VERIF_BW": "1"}, key="neighbors"),
              # boards on which a cell is adjacent to its own point reflection (exactly one even dimension)
              runner.Cond(HF, "h_neighbors", 3 * Tm, name="h_neighbors[1x2]", env={"VERIF_BH": "1", "VERIF_BW": "2"}, key="neighbors"),
+             runner.Cond(HF, "h_neighbors", 3 * Tm, name="h_neighbors[2x2,opt2-3,after-other-neighbourhood]",
+                         env={"VERIF_OPTLO": "2", "VERIF_OPTHI": "3", "VERIF_PRIORB": "1"}, key="neighbors"),
              runner.Cond(HF, "h_neighbors", 3 * Tm, name="h_neighbors[2x1]", env={"VERIF_BH": "2", "VERIF_BW": "1"}, key="neighbors"),
              # choice values that are equal to, but not the same objects as, the default (run-time ints above the small-int cache, built strings)
              runner.Cond(HF, "h_neighbors", 3 * Tm, name="h_neighbors[1x3,big]", env={"VERIF_BH": "1", "VERIF_BW": "3", "VERIF_CHOICE": "big",
